@@ -38,7 +38,16 @@ fn no_core_dumps() {
 fn install_panic_hook() {
     no_core_dumps();
     std::panic::set_hook(Box::new(|info| {
-        let s = info.to_string();
+        let mut s = info.to_string();
+        if std::env::var_os("VERIF_BT").is_some() {
+            // where in the code under test: the frames of routinator / rpki / bcder
+            let bt = std::backtrace::Backtrace::force_capture().to_string();
+            for l in bt.lines().filter(|l| l.contains("routinator") || l.contains("rpki") || l.contains("bcder")).take(12) {
+                s.push_str(" | "); s.push_str(l.trim());
+            }
+            if let Ok(mut g) = PANIC_INFO.lock() { if g.is_none() { *g = Some(s.chars().take(2000).collect()); } }
+            return
+        }
         // the first panic is the cause (a scope re-panics when joining a panicked thread)
         if let Ok(mut g) = PANIC_INFO.lock() { if g.is_none() { *g = Some(s.chars().take(300).collect()); } }
     }));
@@ -153,6 +162,7 @@ fn archive_op(op: &str, arg: &[u8], path: &Path) -> (String, usize, String) {
 
 pub fn main_dec() -> i32 {
     alloc::set_cap(CHILD_CAP);
+    alloc::set_report_from(64 << 20);
     install_panic_hook();
     crate::env::init_process();
     let stdin = std::io::stdin();
@@ -237,18 +247,35 @@ fn copy_tree(src: &Path, dst: &Path) {
 
 pub fn main_runs() -> i32 {
     alloc::set_cap(CHILD_CAP);
+    alloc::set_report_from(64 << 20);
     install_panic_hook();
-    let factory = Factory::new();
     let bed = TestBed::new();
-    let published = small_world().build(&factory);
-    bed.publish(&published);
-    let cfg = bed.config();
-    let first = match run_once(&cfg, true, &LocalExceptions::empty()) {
-        Ok(r) => r.payload.origins.len(),
-        Err(e) => { say(&format!("FAILED first run: {e:?}")); return 2 }
-    };
-    let pristine = bed.dir.path().join("pristine-cache");
-    copy_tree(&bed.cache, &pristine);
+    // The world (keys, objects, the cache after the first run) is built once and kept in VERIF_RUNS_STATE, so that a
+    // respawned child works on byte-identical files (the parent derives its corruptions from them).
+    let state = std::env::var_os("VERIF_RUNS_STATE").map(PathBuf::from).unwrap_or_else(|| bed.dir.path().join("state"));
+    let pristine = state.join("cache");
+    let first;
+    if pristine.is_dir() {
+        copy_tree(&state.join("pub"), &bed.pubdir);
+        copy_tree(&state.join("tals"), &bed.tals);
+        first = std::fs::read_to_string(state.join("payload")).ok().and_then(|s| s.trim().parse().ok()).unwrap_or(0);
+    }
+    else {
+        let factory = Factory::new();
+        let published = small_world().build(&factory);
+        bed.publish(&published);
+        let cfg = bed.config();
+        first = match run_once(&cfg, true, &LocalExceptions::empty()) {
+            Ok(r) => r.payload.origins.len(),
+            Err(e) => { say(&format!("FAILED first run: {e:?}")); return 2 }
+        };
+        copy_tree(&bed.cache, &pristine);
+        copy_tree(&bed.pubdir, &state.join("pub"));
+        copy_tree(&bed.tals, &state.join("tals"));
+        std::fs::write(state.join("payload"), format!("{first}")).unwrap();
+    }
+    let _ = std::fs::remove_dir_all(&bed.cache);
+    copy_tree(&pristine, &bed.cache);
     let stored = bed.cache.join("stored");
     for rel in crate::env::dir_listing(&stored) {
         let data = std::fs::read(stored.join(&rel)).unwrap_or_default();
